@@ -286,7 +286,7 @@ fn run(cfg: &RunCfg) -> Report {
         });
     }
     // (c)/(d) random damage and random strings, short sessions (fully replayable logs)
-    let nsess = if small { 4 } else { cfg.n(cfg.pick(40_000, 600_000)) / ns };
+    let nsess = if small { 4 } else { cfg.n(cfg.pick(40_000, 2_000_000)) / ns };
     for k in 0..nsess {
         let c = CtxCfg::random(&mut rng, true);
         let tid = if sh == 0 && k < 200 { Some(1000 + k) } else { None };
